@@ -564,10 +564,19 @@ func genToken(t *rapid.T, digit bool) string {
 	n := rapid.IntRange(1, 3).Draw(t, "nsep")
 	var sb strings.Builder
 	for i := 0; i < n; i++ {
+		if rapid.IntRange(0, 9).Draw(t, "uni") == 0 {
+			// characters that Unicode-aware code treats like the ASCII ones although
+			// CompareNatural's digits are '0'..'9' only: decimal digits of other
+			// scripts, fullwidth digits and letters, superscripts, Roman numerals
+			sb.WriteString(rapid.SampledFrom(natUnicode).Draw(t, "uch"))
+			continue
+		}
 		sb.WriteByte(natSep[rapid.IntRange(0, len(natSep)-1).Draw(t, "ch")])
 	}
 	return sb.String()
 }
+
+var natUnicode = []string{"\u0663", "\u0660", "\uff13", "\uff10", "\u0969", "\u00b2", "\u2167", "\uff41", "\u00bd", "\u1d7d3"[:3]}
 
 func genTokens(t *rapid.T) []string {
 	n := rapid.IntRange(0, 6).Draw(t, "ntok")
